@@ -17,7 +17,12 @@ package mustache
 //@   callsite[C10] GetVariable requires variables == caller_variables && name == caller_name
 //@   assigns nothing
 //@   nopanic
+// "an escaped variable by its JSON-style escaped value": backslash first, then quote, slash and the control characters
+//@ spec rep(s string, a string, b string) string = ext("strings.ReplaceAll", "string", s, a, b)
 //@ func (c *MustacheTemplate) escapeString
+//@   ensures[C10] value == "" ==> result == ""
+//@   ensures[C10] value != "" ==> result ==
+//@       rep(rep(rep(rep(rep(rep(rep(rep(value, "\\", "\\\\"), "\"", "\\\""), "/", "\\/"), "\b", "\\b"), "\f", "\\f"), "\n", "\\n"), "\r", "\\r"), "\t", "\\t")
 //@   assigns nothing
 //@   nopanic
 // every node of a parsed template: a token whose sub-tokens are nodes again (the tree the parser built)
